@@ -274,3 +274,60 @@ def c_json(ctx, it, cfg):
         ctx.prove('%s/training-data-restored-entry-by-entry' % g, b.fields[field] == tokens[g])
         ctx.prove('%s/refitted-once-per-phase' % g, sorted(ph for f, ph in fits if f == fit) == ['PH1', 'PH2'])
     ctx.prove('no-other-fit', len(fits) == 2 * len(groups))
+
+
+@REG.contract('StrengthModel/save-load-round-trip', ['kawin.precipitation.coupling.Strength:StrengthModel.save', 'kawin.precipitation.coupling.Strength:StrengthModel.load'],
+              configs=[dict(name='compressed', comp=True), dict(name='uncompressed', comp=False)])
+def c_strength_io(ctx, it, cfg):
+    """the three histories the strength model saves come back unchanged, each under its own name, with either file format"""
+    SM = 'kawin.precipitation.coupling.Strength'
+    n = integer(ctx, 'n', lambda v: v >= 1)
+    P = 2
+    ss = array(ctx, 'ssStrength', (n,))
+    rss = array(ctx, 'rss', (n, P))
+    ls = array(ctx, 'ls', (n, P))
+    a = new_obj(it, SM, 'StrengthModel', solidStrength=ss, rss=rss, ls=ls)
+    pre = snapshot(a)
+    a.save('strength.npz', cfg['comp'])
+    frame(ctx, 'save/model-unchanged', a, pre, modifies=[])
+    b = new_obj(it, SM, 'StrengthModel', solidStrength=None, rss=None, ls=None)
+    b.load('strength.npz')
+    for k, src in (('solidStrength', ss), ('rss', rss), ('ls', ls)):
+        got = b.fields[k]
+        ok = isinstance(got, ArrBase) and got.ndim == src.ndim
+        ctx.prove('%s/same-shape' % k, and_(*[eq(got.shape[d], src.shape[d]) for d in range(src.ndim)]) if ok else False)
+        if ok and src.ndim == 1:
+            forall(ctx, '%s/same-values' % k, 0, n, lambda i: eq(got.get(i), src.get(i)))
+        elif ok:
+            forall(ctx, '%s/same-values' % k, 0, n, lambda i: and_(*[eq(got.get(i, p), src.get(i, p)) for p in range(P)]))
+    ctx.prove('canary/ls-is-rss', eq(b.fields['ls'].get(0, 0), rss.get(0, 0)), expect='refuted')
+
+
+@REG.contract('PopulationBalanceModel/recorded-history-round-trip', ['kawin.precipitation.PopulationBalance:PopulationBalanceModel.saveRecordedPSD',
+              'kawin.precipitation.PopulationBalance:PopulationBalanceModel.loadRecordedPSD'], configs=[dict(name='compressed', comp=True), dict(name='uncompressed', comp=False)])
+def c_pbm_io(ctx, it, cfg):
+    """the recorded times, class boundaries and distributions come back unchanged, each under its own name"""
+    from .common import PBM_MOD
+    k = integer(ctx, 'records', lambda v: v >= 1)
+    mb = integer(ctx, 'maxBins', lambda v: v >= 1)
+    rt = array(ctx, 'rec_time', (k,))
+    rb = array(ctx, 'rec_bins', (k, mb + 1))
+    rp = array(ctx, 'rec_PSD', (k, mb))
+    a = new_obj(it, PBM_MOD, 'PopulationBalanceModel', _record=True, _recordedTime=rt, _recordedBins=rb, _recordedPSD=rp)
+    pre = snapshot(a)
+    a.saveRecordedPSD('psd.npz', cfg['comp'])
+    frame(ctx, 'save/model-unchanged', a, pre, modifies=[])
+    b = new_obj(it, PBM_MOD, 'PopulationBalanceModel', _record=False, _recordedTime=None, _recordedBins=None, _recordedPSD=None)
+    b.loadRecordedPSD('psd.npz')
+    ctx.prove('recording-switched-on-by-load', b.fields['_record'] is True)
+    i, j = integer(ctx, 'i', lambda v: v >= 0), integer(ctx, 'j', lambda v: v >= 0)
+    ctx.assume(i < k)
+    for name, src, cols in (('_recordedTime', rt, None), ('_recordedBins', rb, mb + 1), ('_recordedPSD', rp, mb)):
+        got = b.fields[name]
+        ok = isinstance(got, ArrBase) and got.ndim == src.ndim
+        ctx.prove('%s/same-shape' % name, and_(*[eq(got.shape[d], src.shape[d]) for d in range(src.ndim)]) if ok else False)
+        if ok and cols is None:
+            ctx.prove('%s/same-values' % name, eq(got.get(i), src.get(i)), inst=[i])
+        elif ok:
+            ctx.prove('%s/same-values' % name, implies(j < cols, eq(got.get(i, j), src.get(i, j))), inst=[i, j])
+    ctx.prove('canary/boundaries-hold-the-distribution', eq(b.fields['_recordedBins'].get(0, 0), rp.get(0, 0)), expect='refuted')
